@@ -77,6 +77,8 @@ func main() {
 		"a result that differs from the baseline under every delivery schedule it was run with is reported once with sched=* (the cause is then the consumption mode / buffer / handed-in bufio, not the schedule)",
 		"header long-line sweep: valid reference-written files with one unknown-type stanza whose opening line is 4000..70000 bytes (1, 3 or 7 arguments; first / after the match / last), 300-byte plaintext; sources: every schedule, caller-side bufio.Readers of 16..131072 bytes, *os.File, os.Pipe",
 		"header-size sweep: valid reference-written files with headers of round-d bytes (round = 4096*k, 64 KiB, 1 MiB; 16 MiB in thorough), one large unknown stanza or many ssh-ed25519-looking stanzas, 5000-byte plaintext behind it",
+		"large-caller-buffer sweep: files of 3, 9 and 20 chunks, binary and armored; Read buffers of 65537..4 MiB, io.ReadAll, bytes.Buffer.ReadFrom, a 1 MiB bufio.Reader; at every Read return the counting source may have delivered at most what was released before the call needed + 2 chunks + 8 KiB",
+		"empty-answer sweep: sources interleaving (0, nil) with pieces of 1..512 bytes (1, 2 or 5 empty answers after each piece; 99/100/101 per chunk), never after the last byte (there (0, nil) legitimately reads as 'more follows'); valid files of 300, 65535, 65536, 65537 and 131073 bytes, binary and armored",
 		"CLI encoding stage: an armored file re-encoded as UTF-16LE+BOM+CRLF, UTF-16BE+BOM, UTF-8+BOM, UTF-32LE+BOM under INPUT path, stdin file, stdin pipe whole and trickled (1, 3, 7 / 101, 1001, 4095, 4097-byte pieces); only independence of the delivery is judged, not acceptance",
 		"CLI damaged-by-route stage: a 3-chunk LF-only text file damaged in its last chunk, ciphertext on a stdin pipe / a redirect / as INPUT, towards a pipe, a pty, -o - on a pty and -o FILE; every route is compared with pipe-to-pipe, retried once, and judged only if the same route delivers the valid file",
 		"CLI streaming stage: header + 2.5 chunks on a stdin pipe that stays open; 64 KiB must reach the pty within 40 s; a pipe destination is the control (expiry there makes the case inconclusive)",
